@@ -540,6 +540,24 @@ func (s *configurationStore) store(ctx context.Context, store _map.Map[string, *
 			transaction.Update(pv.Path, pv, _map.IfVersion(entry.Version))
 		}
 	}
+	// Remove the entries that are no longer part of the values, e.g. the tombstone of a deleted node that was
+	// cleared because one of its descendants has been created again.
+	stream, err := store.List(ctx)
+	if err != nil {
+		return errors.FromAtomix(err)
+	}
+	for {
+		entry, err := stream.Next()
+		if err == io.EOF {
+			break
+		}
+		if err != nil {
+			return errors.FromAtomix(err)
+		}
+		if _, ok := values[entry.Key]; !ok {
+			transaction.Remove(entry.Key, _map.IfVersion(entry.Version))
+		}
+	}
 	if _, err := transaction.Commit(); err != nil {
 		err = errors.FromAtomix(err)
 		if errors.IsNotFound(err) || errors.IsAlreadyExists(err) || errors.IsConflict(err) {
